@@ -146,7 +146,7 @@ def _gen_pad(rng, i):
 
 
 def gen_cases(run):
-    total = run.n(12000, 960000)
+    total = run.n(12000, 400000)
     rng = run.rng
     for i in range(total):
         spec = _gen_pipe(rng, i // 2) if i % 2 == 0 else _gen_pad(rng, i // 2)
